@@ -787,6 +787,8 @@ Qed.
    events three sites remain, all of which need the chaser discipline of the partition worker (a fin arrives with
    retries <= highWatermark; C02's invariant), not proved here: retry exhaustion of a bounced chaser at a broker
    worker, a leader-lookup failure while a partition worker forwards a chaser as if it were data, and the
-   dispatcher's size check on a chaser when MaxMessageBytes is below the size of an empty message. *)
+   dispatcher's size check on a chaser when MaxMessageBytes is below the size of an empty message.
+   (b-c02 proves that discipline on the dedicated ordering model coq/C02 -- Inv1 / inv_run, c02_no_panic -- which is
+   tied to pp_step / bp_step by a lockstep check; it is not ported to this composition.) *)
 Definition markers_never_reported_statement (c : cfg) : Prop :=
   forall sched b m x, In (Ev b m x) (g_events (run c sched)) -> is_data m = true.
